@@ -120,6 +120,9 @@ def explore(ctx):
         rows = []
         for j in range(n):
             r = {'id': j, 'k': rng.choice(['a', 'b', 'c', None, 1])}
+            if i % 8 == 0:
+                # keys that are different values although they are the same (or neighbouring) doubles
+                r['k'] = rng.choice([9223372036854775807, 9223372036854775808, 9223372036854775806, 'a', 2**53, 2**53 + 1, float(2**53)])
             if rng.random() < 0.9:
                 r['a'] = rng.randint(-9, 9) if ints_only else rng.choice([rng.randint(-9, 9), rng.random() * 10, 0.1, 1e15 + 0.5, None, 'x', 'nan'])
             if rng.random() < 0.8:
